@@ -4,6 +4,7 @@ import (
 	"flag"
 	"fmt"
 	"math"
+	"math/big"
 	"os"
 	"path/filepath"
 	"sort"
@@ -191,7 +192,13 @@ type c02Site struct {
 	Decl    string
 	Call    string // expression over loop variables x, y producing the value handed to em
 	Expect  []string
-	ByIndex bool // the loop variables are indexes into the value tables
+	ByIndex bool     // the loop variables are indexes into the value tables
+	KExpr   string   // constant-rounding sites: the Go constant expression converted to the typed destination
+	KVal    *big.Rat // its exact value
+	KName   string
+	KPred2  string // second possible output of the defect
+	KPred   string // known-finding sites: the output (or its prefix, for failures) the defect produces
+	Paren   string // redundant parentheses: "" none, pl / pr around the left / right operand, po around the operand, pw / pww around the whole expression (once / twice), pa around everything, pt around the type of a conversion
 }
 
 func (s *c02Site) desc() map[string]any {
@@ -201,6 +208,12 @@ func (s *c02Site) desc() map[string]any {
 	}
 	if s.Const != nil {
 		d["const"] = s.Const.lit()
+	}
+	if s.Paren != "" {
+		d["paren"] = s.Paren
+	}
+	if s.KExpr != "" {
+		d["constant"] = s.KExpr
 	}
 	return d
 }
@@ -297,43 +310,62 @@ func c02Context(ctx string, id int, sg c02Sig, R, E string) (decl string, ok boo
 		return fmt.Sprintf("func %s(%s) bool {\n%s\tfor %s {\n\t\treturn true\n\t}\n\treturn false\n}\n", fn, params, pro, E), R == "bool"
 	case "sw":
 		return fmt.Sprintf("func %s(%s) bool {\n%s\tswitch {\n\tcase %s:\n\t\treturn true\n\t}\n\treturn false\n}\n", fn, params, pro, E), R == "bool"
+	case "andl-if", "andr-if", "orl-if", "orr-if", "andl-v", "orr-v":
+		// E as an operand of && / || (yes and no are package variables holding true and false)
+		c := map[string]string{"andl": E + " && yes", "andr": "yes && " + E, "orl": E + " || no", "orr": "no || " + E}[ctx[:strings.IndexByte(ctx, '-')]]
+		if strings.HasSuffix(ctx, "-if") {
+			return fmt.Sprintf("func %s(%s) bool {\n%s\tif %s {\n\t\treturn true\n\t}\n\treturn false\n}\n", fn, params, pro, c), R == "bool"
+		}
+		return fmt.Sprintf("func %s(%s) bool {\n%s\tr := %s\n\treturn r\n}\n", fn, params, pro, c), R == "bool"
 	}
 	return "", false
 }
 
-// compound assignment contexts: target initialised with x, then `target OP= Y`
-func c02Compound(ctx string, id int, sg c02Sig, K, op, Y string) string {
+// compound assignment contexts: target initialised with x, then `target OP= Y` (tp: target in redundant parentheses)
+func c02Compound(ctx string, id int, sg c02Sig, K, op, Y string, tp bool) string {
 	fn := fmt.Sprintf("s%d", id)
 	params, pro := sg.params, sg.pro
+	t := func(x string) string {
+		if tp {
+			return "(" + x + ")"
+		}
+		return x
+	}
 	switch ctx {
 	case "cmpd":
-		return fmt.Sprintf("func %s(%s) %s {\n%s\tr := x\n\tr %s= %s\n\treturn r\n}\n", fn, params, K, pro, op, Y)
+		return fmt.Sprintf("func %s(%s) %s {\n%s\tr := x\n\t%s %s= %s\n\treturn r\n}\n", fn, params, K, pro, t("r"), op, Y)
 	case "cmpd-map":
-		return fmt.Sprintf("func %s(%s) %s {\n%s\tm := map[int]%s{0: x}\n\tm[0] %s= %s\n\treturn m[0]\n}\n", fn, params, K, pro, K, op, Y)
+		return fmt.Sprintf("func %s(%s) %s {\n%s\tm := map[int]%s{0: x}\n\t%s %s= %s\n\treturn m[0]\n}\n", fn, params, K, pro, K, t("m[0]"), op, Y)
 	case "cmpd-idx":
-		return fmt.Sprintf("func %s(%s) %s {\n%s\ta := []%s{x}\n\ta[0] %s= %s\n\treturn a[0]\n}\n", fn, params, K, pro, K, op, Y)
+		return fmt.Sprintf("func %s(%s) %s {\n%s\ta := []%s{x}\n\t%s %s= %s\n\treturn a[0]\n}\n", fn, params, K, pro, K, t("a[0]"), op, Y)
 	case "cmpd-fld":
-		return fmt.Sprintf("func %s(%s) %s {\n%s\tvar t struct{ f %s }\n\tt.f = x\n\tt.f %s= %s\n\treturn t.f\n}\n", fn, params, K, pro, K, op, Y)
+		return fmt.Sprintf("func %s(%s) %s {\n%s\tvar t struct{ f %s }\n\tt.f = x\n\t%s %s= %s\n\treturn t.f\n}\n", fn, params, K, pro, K, t("t.f"), op, Y)
 	case "cmpd-ptr":
-		return fmt.Sprintf("func %s(%s) %s {\n%s\tr := x\n\tp := &r\n\t*p %s= %s\n\treturn r\n}\n", fn, params, K, pro, op, Y)
+		return fmt.Sprintf("func %s(%s) %s {\n%s\tr := x\n\tp := &r\n\t%s %s= %s\n\treturn r\n}\n", fn, params, K, pro, t("*p"), op, Y)
 	}
 	panic("c02: bad compound context " + ctx)
 }
 
-func c02IncDec(ctx string, id int, sg c02Sig, K, op string) string {
+func c02IncDec(ctx string, id int, sg c02Sig, K, op string, tp bool) string {
 	fn := fmt.Sprintf("s%d", id)
 	body := ""
+	t := func(x string) string {
+		if tp {
+			return "(" + x + ")"
+		}
+		return x
+	}
 	switch ctx {
 	case "var":
-		body = fmt.Sprintf("\tr = x\n\tr%s\n", op)
+		body = fmt.Sprintf("\tr = x\n\t%s%s\n", t("r"), op)
 	case "map":
-		body = fmt.Sprintf("\tm := map[int]%s{0: x}\n\tm[0]%s\n\tr = m[0]\n", K, op)
+		body = fmt.Sprintf("\tm := map[int]%s{0: x}\n\t%s%s\n\tr = m[0]\n", K, t("m[0]"), op)
 	case "idx":
-		body = fmt.Sprintf("\ta := []%s{x}\n\ta[0]%s\n\tr = a[0]\n", K, op)
+		body = fmt.Sprintf("\ta := []%s{x}\n\t%s%s\n\tr = a[0]\n", K, t("a[0]"), op)
 	case "fld":
-		body = fmt.Sprintf("\tvar t struct{ f %s }\n\tt.f = x\n\tt.f%s\n\tr = t.f\n", K, op)
+		body = fmt.Sprintf("\tvar t struct{ f %s }\n\tt.f = x\n\t%s%s\n\tr = t.f\n", K, t("t.f"), op)
 	case "ptr":
-		body = fmt.Sprintf("\tr = x\n\tp := &r\n\t(*p)%s\n", op)
+		body = fmt.Sprintf("\tr = x\n\tp := &r\n\t%s%s\n", t("(*p)"), op)
 	}
 	return fmt.Sprintf("func %s(%s) (r %s, ok bool) {\n%s%s\tok = true\n\treturn\n}\n\nfunc w%d(%s) interface{} {\n\tr, ok := %s(%s)\n\tif !ok {\n\t\treturn stopTok{}\n\t}\n\treturn r\n}\n", fn, sg.params, K, sg.pro, body, id, sg.params, fn, sg.args)
 }
@@ -424,72 +456,148 @@ func (g *c02Gen) binarySites(cat, op string, k, kc *c02Kind, xs, ys []c02V, ctxs
 			if ctx == "ifa" && (cat == "shift" || op == "%") && region != "iface-assign" {
 				continue // known finding: exercised by a small region stream only
 			}
-			for _, v := range variants {
-				s := &c02Site{Cat: cat, Op: op, K: k, K2: kc, Form: form, Ctx: ctx, Region: region, Const: v.cv, Xs: v.loopX, Ys: v.loopY, ByIndex: byIndex}
-				if k.Name == "complex64" && v.cv != nil {
-					s.Region = "complex64-const"
-				}
+			for vi, v := range variants {
+				for _, pm := range g.parenModes("bin", form, vi, isCmpd, region, salt) {
+					s := &c02Site{Cat: cat, Op: op, K: k, K2: kc, Form: form, Ctx: ctx, Region: region, Const: v.cv, Xs: v.loopX, Ys: v.loopY, ByIndex: byIndex, Paren: pm}
+					if pm != "" {
+						s.Xs, s.Ys = g.parenSub(v.loopX), g.parenSub(v.loopY)
+					}
+					if k.Name == "complex64" && v.cv != nil {
+						s.Region = "complex64-const"
+					}
+					leftLand := ctx == "andl-if" || ctx == "orl-if" || ctx == "andl-v"
+					if leftLand && cat == "cmp" && (pm == "pl" || pm == "pr" || pm == "pa") {
+						// known finding: a parenthesised operand of a comparison that is the left operand of && / ||
+						// is wired as a branch condition itself. Non-boolean operands: the host panics in reflect
+						// (predictable, one evaluation per site); boolean operands: operand variables get overwritten
+						// (not predictable by the harness, not generated)
+						if k.Class == "bool" {
+							continue
+						}
+						s.Region = "paren-operand-land"
+						s.Xs = s.Xs[:1]
+						if s.Ys != nil {
+							s.Ys = s.Ys[:1]
+						}
+					}
+					if ctx == "cmpd-map" && pm == "pl" {
+						s.Region = "paren-map-target"
+					}
 
-				g.nextID++
-				s.ID = g.nextID
-				cdecl := ""
-				cexpr := ""
-				if v.cv != nil {
-					ck := v.cv.K
-					switch form[strings.IndexAny(form, "lcuf")] {
-					case 'f':
-						// untyped floating-point literal with an integral value used as an integer constant
-						cexpr = v.cv.lit() + ".0"
-						if strings.HasPrefix(cexpr, "-") {
-							cexpr = "(" + cexpr + ")"
+					g.nextID++
+					s.ID = g.nextID
+					cdecl := ""
+					cexpr := ""
+					if v.cv != nil {
+						ck := v.cv.K
+						switch form[strings.IndexAny(form, "lcuf")] {
+						case 'f':
+							// untyped floating-point literal with an integral value used as an integer constant
+							cexpr = v.cv.lit() + ".0"
+							if strings.HasPrefix(cexpr, "-") {
+								cexpr = "(" + cexpr + ")"
+							}
+						case 'l':
+							cexpr = v.cv.lit()
+							if cat == "shift" && form == "lv" || ck.Class == "complex" {
+								cexpr = fmt.Sprintf("%s(%s)", ck.Name, v.cv.lit())
+							} else if strings.HasPrefix(cexpr, "-") {
+								cexpr = "(" + cexpr + ")"
+							}
+						case 'c':
+							cdecl = fmt.Sprintf("const c%d %s = %s\n\n", s.ID, ck.Name, v.cv.lit())
+							cexpr = fmt.Sprintf("c%d", s.ID)
+						case 'u':
+							cdecl = fmt.Sprintf("const c%d = %s\n\n", s.ID, v.cv.lit())
+							cexpr = fmt.Sprintf("c%d", s.ID)
 						}
-					case 'l':
-						cexpr = v.cv.lit()
-						if cat == "shift" && form == "lv" || ck.Class == "complex" {
-							cexpr = fmt.Sprintf("%s(%s)", ck.Name, v.cv.lit())
-						} else if strings.HasPrefix(cexpr, "-") {
-							cexpr = "(" + cexpr + ")"
+					}
+					ex, ey := v.ex, v.ey
+					if ex == "" {
+						ex = cexpr
+					}
+					if ey == "" {
+						ey = cexpr
+					}
+					if pm == "pl" || pm == "pa" {
+						ex = "(" + ex + ")"
+					}
+					if pm == "pr" || pm == "pa" {
+						ey = "(" + ey + ")"
+					}
+					E := fmt.Sprintf("%s %s %s", ex, op, ey)
+					switch pm {
+					case "pw", "pa":
+						E = "(" + E + ")"
+					case "pww":
+						E = "((" + E + "))"
+					}
+					var decl string
+					if isCmpd {
+						decl = c02Compound(ctx, s.ID, v.sg, k.Name, op, ey, pm == "pl")
+					} else {
+						var ok bool
+						decl, ok = c02Context(ctx, s.ID, v.sg, R, E)
+						if !ok {
+							g.nextID--
+							continue
 						}
-					case 'c':
-						cdecl = fmt.Sprintf("const c%d %s = %s\n\n", s.ID, ck.Name, v.cv.lit())
-						cexpr = fmt.Sprintf("c%d", s.ID)
-					case 'u':
-						cdecl = fmt.Sprintf("const c%d = %s\n\n", s.ID, v.cv.lit())
-						cexpr = fmt.Sprintf("c%d", s.ID)
 					}
-				}
-				ex, ey := v.ex, v.ey
-				if ex == "" {
-					ex = cexpr
-				}
-				if ey == "" {
-					ey = cexpr
-				}
-				var decl string
-				if isCmpd {
-					decl = c02Compound(ctx, s.ID, v.sg, k.Name, op, ey)
-				} else {
-					var ok bool
-					decl, ok = c02Context(ctx, s.ID, v.sg, R, fmt.Sprintf("%s %s %s", ex, op, ey))
-					if !ok {
-						g.nextID--
-						continue
+					s.Decl = cdecl + decl
+					call := fmt.Sprintf("s%d(%s)", s.ID, v.callArgs)
+					if ctx == "ifa" {
+						call = fmt.Sprintf("w%d(%s)", s.ID, v.callArgs)
+					} else if mayPanic {
+						s.Decl += c02Try(s.ID, v.sg)
+						call = fmt.Sprintf("t%d(%s)", s.ID, v.callArgs)
 					}
+					s.Call = call
+					g.sites = append(g.sites, s)
+					expect(s)
 				}
-				s.Decl = cdecl + decl
-				call := fmt.Sprintf("s%d(%s)", s.ID, v.callArgs)
-				if ctx == "ifa" {
-					call = fmt.Sprintf("w%d(%s)", s.ID, v.callArgs)
-				} else if mayPanic {
-					s.Decl += c02Try(s.ID, v.sg)
-					call = fmt.Sprintf("t%d(%s)", s.ID, v.callArgs)
-				}
-				s.Call = call
-				g.sites = append(g.sites, s)
-				expect(s)
 			}
 		}
 	}
+}
+
+// parenModes lists the parenthesisations generated for a site family: always the plain form; the
+// parenthesised variants for the two-variable form and for one constant form rotated by the seed
+// (first constant value only), outside the known-defect region streams.
+func (g *c02Gen) parenModes(cat, form string, variant int, cmpd bool, region string, salt int) []string {
+	modes := []string{""}
+	if region != "" {
+		return modes
+	}
+	switch cat {
+	case "bin":
+		constForms := []string{"lv", "vl", "cv", "vc", "uv", "vu"}
+		if form != "vv" && !(variant == 0 && form == constForms[(int(g.seed)+salt)%len(constForms)]) {
+			return modes
+		}
+		if cmpd {
+			if form[0] != 'v' {
+				return modes
+			}
+			return append(modes, "pl", "pr")
+		}
+		return append(modes, "pl", "pr", "pw", "pa", "pww")
+	case "un":
+		return append(modes, "po", "pw", "pww")
+	case "incdec":
+		return append(modes, "po")
+	case "conv":
+		return append(modes, "po", "pw", "pt")
+	}
+	return modes
+}
+
+// parenSub: the parenthesised variants run on a few values of the list in the quick tier
+func (g *c02Gen) parenSub(vals []c02V) []c02V {
+	if vals == nil || g.tier == "thorough" || len(vals) <= 4 {
+		return vals
+	}
+	n := len(vals)
+	return []c02V{vals[0], vals[n/3], vals[2*n/3], vals[n-1]}
 }
 
 func c02IsZero(v c02V) bool {
@@ -551,50 +659,75 @@ func c02NativeBinary(cat, op string, k *c02Kind, x, y c02V) string {
 
 func (g *c02Gen) unarySites(op string, k *c02Kind, xs []c02V, ctxs []string) {
 	for _, ctx := range ctxs {
-		byIndex := k.Class == "float" || k.Class == "complex"
-		s := &c02Site{Cat: "un", Op: op, K: k, Form: "v", Ctx: ctx, Xs: xs, ByIndex: byIndex}
-		g.nextID++
-		s.ID = g.nextID
-		decl, ok := c02Context(ctx, s.ID, c02MkSig(byIndex, []string{"x"}, []string{k.Name}), k.Name, op+"x")
-		if !ok {
-			g.nextID--
-			continue
-		}
-		s.Decl = decl
-		s.Call = fmt.Sprintf("s%d(x)", s.ID)
-		if ctx == "ifa" {
-			s.Call = fmt.Sprintf("w%d(x)", s.ID)
-			if op != "+" {
-				s.Region = "iface-assign"
+		for _, pm := range g.parenModes("un", "v", 0, false, "", 0) {
+			if pm == "po" && (ctx == "andl-if" || ctx == "orl-if" || ctx == "andl-v") {
+				continue // known finding paren-operand-land (boolean operand: not predictable, not generated)
 			}
-		}
-		for _, x := range xs {
-			if k.Class == "bool" {
-				s.Expect = append(s.Expect, c02Tok(!x.B))
-			} else {
-				s.Expect = append(s.Expect, c02OpsOf[k.Name].un(op, x))
+			byIndex := k.Class == "float" || k.Class == "complex"
+			s := &c02Site{Cat: "un", Op: op, K: k, Form: "v", Ctx: ctx, Xs: xs, ByIndex: byIndex, Paren: pm}
+			if pm != "" {
+				s.Xs = g.parenSub(xs)
 			}
+			g.nextID++
+			s.ID = g.nextID
+			E := op + "x"
+			switch pm {
+			case "po":
+				E = op + "(x)"
+			case "pw":
+				E = "(" + op + "x)"
+			case "pww":
+				E = "((" + op + "x))"
+			}
+			decl, ok := c02Context(ctx, s.ID, c02MkSig(byIndex, []string{"x"}, []string{k.Name}), k.Name, E)
+			if !ok {
+				g.nextID--
+				continue
+			}
+			s.Decl = decl
+			s.Call = fmt.Sprintf("s%d(x)", s.ID)
+			if ctx == "ifa" {
+				s.Call = fmt.Sprintf("w%d(x)", s.ID)
+				if op != "+" && pm != "pw" && pm != "pww" {
+					// q = (-x): the parenthesised expression takes the interface type, the unary node keeps its own: no defect
+					s.Region = "iface-assign"
+				}
+			}
+			for _, x := range s.Xs {
+				if k.Class == "bool" {
+					s.Expect = append(s.Expect, c02Tok(!x.B))
+				} else {
+					s.Expect = append(s.Expect, c02OpsOf[k.Name].un(op, x))
+				}
+			}
+			g.sites = append(g.sites, s)
 		}
-		g.sites = append(g.sites, s)
 	}
 }
 
 func (g *c02Gen) incdecSites(k *c02Kind, xs []c02V) {
 	for _, op := range []string{"++", "--"} {
 		for _, ctx := range []string{"var", "map", "idx", "fld", "ptr"} {
-			byIndex := k.Class == "float" || k.Class == "complex"
-			s := &c02Site{Cat: "incdec", Op: op, K: k, Form: "v", Ctx: ctx, Xs: xs, ByIndex: byIndex}
-			if k.Name == "uintptr" {
-				s.Region = "uintptr-incdec"
+			for _, pm := range g.parenModes("incdec", "v", 0, false, "", 0) {
+				byIndex := k.Class == "float" || k.Class == "complex"
+				s := &c02Site{Cat: "incdec", Op: op, K: k, Form: "v", Ctx: ctx, Xs: xs, ByIndex: byIndex, Paren: pm}
+				if pm != "" {
+					s.Xs = g.parenSub(xs)
+				}
+				if k.Name == "uintptr" {
+					s.Region = "uintptr-incdec"
+				} else if ctx == "map" && pm == "po" {
+					s.Region = "paren-map-target"
+				}
+				g.nextID++
+				s.ID = g.nextID
+				s.Decl = c02IncDec(ctx, s.ID, c02MkSig(byIndex, []string{"x"}, []string{k.Name}), k.Name, op, pm == "po")
+				s.Call = fmt.Sprintf("w%d(x)", s.ID)
+				for _, x := range s.Xs {
+					s.Expect = append(s.Expect, c02OpsOf[k.Name].incdec(op == "++", x))
+				}
+				g.sites = append(g.sites, s)
 			}
-			g.nextID++
-			s.ID = g.nextID
-			s.Decl = c02IncDec(ctx, s.ID, c02MkSig(byIndex, []string{"x"}, []string{k.Name}), k.Name, op)
-			s.Call = fmt.Sprintf("w%d(x)", s.ID)
-			for _, x := range xs {
-				s.Expect = append(s.Expect, c02OpsOf[k.Name].incdec(op == "++", x))
-			}
-			g.sites = append(g.sites, s)
 		}
 	}
 }
@@ -614,21 +747,39 @@ func (g *c02Gen) convSites(from, to *c02Kind, xs []c02V, ctxs []string) {
 		return
 	}
 	for _, ctx := range ctxs {
-		byIndex := from.Class == "float" || from.Class == "complex"
-		s := &c02Site{Cat: "conv", Op: to.Name, K: from, K2: to, Form: "v", Ctx: ctx, Xs: vals, Expect: exp, ByIndex: byIndex}
-		g.nextID++
-		s.ID = g.nextID
-		decl, ok := c02Context(ctx, s.ID, c02MkSig(byIndex, []string{"x"}, []string{from.Name}), to.Name, fmt.Sprintf("%s(x)", to.Name))
-		if !ok {
-			g.nextID--
-			continue
+		for _, pm := range g.parenModes("conv", "v", 0, false, "", 0) {
+			byIndex := from.Class == "float" || from.Class == "complex"
+			s := &c02Site{Cat: "conv", Op: to.Name, K: from, K2: to, Form: "v", Ctx: ctx, Xs: vals, Expect: exp, ByIndex: byIndex, Paren: pm}
+			if pm != "" && g.tier != "thorough" && len(vals) > 4 {
+				n := len(vals)
+				s.Xs, s.Expect = nil, nil
+				for _, i := range []int{0, n / 3, 2 * n / 3, n - 1} {
+					s.Xs, s.Expect = append(s.Xs, vals[i]), append(s.Expect, exp[i])
+				}
+			}
+			g.nextID++
+			s.ID = g.nextID
+			E := fmt.Sprintf("%s(x)", to.Name)
+			switch pm {
+			case "po":
+				E = fmt.Sprintf("%s((x))", to.Name)
+			case "pw":
+				E = fmt.Sprintf("(%s(x))", to.Name)
+			case "pt":
+				E = fmt.Sprintf("(%s)(x)", to.Name)
+			}
+			decl, ok := c02Context(ctx, s.ID, c02MkSig(byIndex, []string{"x"}, []string{from.Name}), to.Name, E)
+			if !ok {
+				g.nextID--
+				continue
+			}
+			s.Decl = decl
+			s.Call = fmt.Sprintf("s%d(x)", s.ID)
+			if ctx == "ifa" {
+				s.Call = fmt.Sprintf("w%d(x)", s.ID)
+			}
+			g.sites = append(g.sites, s)
 		}
-		s.Decl = decl
-		s.Call = fmt.Sprintf("s%d(x)", s.ID)
-		if ctx == "ifa" {
-			s.Call = fmt.Sprintf("w%d(x)", s.ID)
-		}
-		g.sites = append(g.sites, s)
 	}
 	// typed constant operand, only where the constant conversion is legal in Go (representable)
 	if to.Class == "string" || from.Class == "complex" {
@@ -701,7 +852,7 @@ func c02ConstConvertible(v c02V, to *c02Kind) bool {
 
 func (g *c02Gen) enumerate() {
 	valCtx := []string{"ret", "asg", "def", "ifc", "ifa", "arg", "glob"}
-	cmpCtx := []string{"ret", "asg", "def", "ifc", "ifa", "arg", "if", "for", "sw"}
+	cmpCtx := []string{"ret", "asg", "def", "ifc", "ifa", "arg", "if", "for", "sw", "andl-if", "andr-if", "orl-if", "orr-if", "andl-v", "orr-v"}
 	cmpd := []string{"cmpd", "cmpd-map", "cmpd-idx", "cmpd-fld", "cmpd-ptr"}
 	allForms := []string{"vv", "lv", "vl", "cv", "vc", "uv", "vu"}
 	intForms := append(append([]string{}, allForms...), "fv", "vf")
@@ -826,6 +977,8 @@ func (g *c02Gen) enumerate() {
 	g.convSites(c02CplxKinds[0], c02CplxKinds[1], c02CplxValues(c02CplxKinds[0]), []string{"ret", "ifc"})
 	g.convSites(c02CplxKinds[1], c02CplxKinds[0], c02CplxValues(c02CplxKinds[1]), []string{"ret", "ifc"})
 	g.convSites(c02CplxKinds[0], c02CplxKinds[0], c02CplxValues(c02CplxKinds[0]), []string{"ret"})
+	// constants chosen for float rounding -> typed destinations (always also compiled by Go)
+	g.constSites()
 }
 
 func c02RuneValues(k *c02Kind) []c02V {
@@ -863,6 +1016,7 @@ type stopTok struct{}
 
 var buf []byte
 var _ = math.Pi
+var yes, no = true, false
 
 func pan(e interface{}) panicTok {
 	s := fmt.Sprint(e)
@@ -900,6 +1054,16 @@ func em(v interface{}) {
 func hdr(id int) { buf = append(buf[:0], fmt.Sprint(id)...) }
 func flush()     { fmt.Printf("%s\n", buf) }
 
+// fin ends the line of a site; a run-time panic inside the interpreter's own code (not a Go panic of
+// the evaluated expression, those are caught per evaluation) ends the site with CRASH, not the program
+func fin() {
+	if e := recover(); e != nil {
+		buf = append(buf, " CRASH:"...)
+		buf = append(buf, strings.ReplaceAll(fmt.Sprint(e), " ", "_")...)
+	}
+	flush()
+}
+
 `
 
 type c02Prog struct {
@@ -931,7 +1095,7 @@ func c02Render(name string, sites []*c02Site) *c02Prog {
 	}
 	var body, drivers, main strings.Builder
 	for _, s := range sites {
-		if s.Ctx == "arg" {
+		if s.Ctx == "arg" || s.Ctx == "karg" {
 			R := s.K.Name
 			if s.Cat == "cmp" || s.Cat == "logic" {
 				R = "bool"
@@ -953,7 +1117,7 @@ func c02Render(name string, sites []*c02Site) *c02Prog {
 		}
 		body.WriteString(decl)
 		body.WriteString("\n")
-		fmt.Fprintf(&drivers, "func d%d() {\n\thdr(%d)\n", s.ID, s.ID)
+		fmt.Fprintf(&drivers, "func d%d() {\n\thdr(%d)\n\tdefer fin()\n", s.ID, s.ID)
 		lv := "_, "
 		if s.ByIndex {
 			lv = ""
@@ -963,7 +1127,7 @@ func c02Render(name string, sites []*c02Site) *c02Prog {
 		} else {
 			fmt.Fprintf(&drivers, "\tfor %sx := range %s {\n\t\tem(%s)\n\t}\n", lv, tabName(s.Xs), s.Call)
 		}
-		drivers.WriteString("\tflush()\n}\n\n")
+		drivers.WriteString("}\n\n")
 		fmt.Fprintf(&main, "\td%d()\n", s.ID)
 	}
 	b.WriteString(tabDecl.String())
@@ -1056,6 +1220,18 @@ func c02ZeroCleared(tok string) (string, bool) {
 	return tok, false
 }
 
+// c02ValTok is the token of a value of its own kind
+func c02ValTok(v c02V) string {
+	switch v.K.Class {
+	case "string":
+		return c02Tok(v.S)
+	case "bool":
+		return c02Tok(v.B)
+	}
+	t, _ := c02Conv(v, v.K)
+	return t
+}
+
 // wide value of a complex64 constant operand as yaegi reads it: the untyped constant at float64 precision
 func c02WideConst(v c02V) complex128 {
 	f32 := c02FloatKinds[0]
@@ -1066,9 +1242,29 @@ func c02WideConst(v c02V) complex128 {
 
 // c02KnownDefect gives the region label of evaluation i of site s ("" = main stream) and, where the
 // harness can compute it, the output the known defect produces ("" = decided by model Y in Coq).
-func c02KnownDefect(s *c02Site, i int, ref string) (region, predicted string) {
+func c02KnownDefect(s *c02Site, i int, ref, impl string) (region, predicted string) {
 	region = s.Region
 	switch region {
+	case "const-return", "const-expr-float32", "const-real-to-complex":
+		if s.KPred2 != "" && impl == s.KPred2 {
+			return region, impl
+		}
+		if strings.HasPrefix(s.KPred, "FAIL:") {
+			if strings.HasPrefix(impl, s.KPred) {
+				return region, impl
+			}
+			return region, s.KPred
+		}
+		return region, s.KPred
+	case "paren-map-target":
+		// (m[k]) op= y and (m[k])++ : isMapEntry does not look through the parentheses, the map is not updated
+		x, _ := s.operands(i)
+		return region, c02Canon(c02ValTok(*x))
+	case "paren-operand-land":
+		if i == 0 && strings.HasPrefix(impl, "CRASH:reflect:_call_of_reflect.Value.Bool_on_"+s.K.Name+"_Value") {
+			return region, impl
+		}
+		return region, "CRASH"
 	case "complex64-const":
 		x, _ := s.operands(i)
 		a, b := x.C, c02WideConst(*s.Const)
@@ -1211,7 +1407,7 @@ func c02CoqCase(id int, s *c02Site, i int, impl, ref string) (kind, text string)
 			ck = fmt.Sprintf("(CBin %s %s)", c02CoqOp[s.Op], form)
 		}
 	case "cmp":
-		brn := s.Ctx == "if" || s.Ctx == "for" || s.Ctx == "sw"
+		brn := s.Ctx == "if" || s.Ctx == "for" || s.Ctx == "sw" || strings.HasPrefix(s.Ctx, "and") || strings.HasPrefix(s.Ctx, "or")
 		ck = fmt.Sprintf("(CCmp %s %s %s)", c02CoqOp[s.Op], form, coqBool(brn))
 		resK = nil
 	case "un":
@@ -1219,7 +1415,7 @@ func c02CoqCase(id int, s *c02Site, i int, impl, ref string) (kind, text string)
 		// the interface rows of neg / bitNot are unreachable (their kind switch inspects the interface type itself):
 		// `var r interface{} = -x` computes into a typed temporary
 		ck = fmt.Sprintf("(CUn %s FVar)", o)
-		if s.Ctx == "ifa" {
+		if s.Ctx == "ifa" && s.Paren != "pw" && s.Paren != "pww" {
 			ck = fmt.Sprintf("(CUnIfa %s)", o)
 		}
 	case "incdec":
@@ -1304,13 +1500,59 @@ func runC02(args []string) error {
 	parallelMap(len(progs), 0, func(i int) {
 		implOut[i] = runYaegiChild(progs[i].Src, 120*time.Second)
 	})
+	// a program the interpreter refuses or aborts as a whole is split until the offending sites are
+	// isolated: those sites fail alone, all the others are still compared
+	siteFail := map[int]string{}
+	isolated := map[int]bool{}
+	{
+		var mu sync.Mutex
+		var failing []int
+		for i := range progs {
+			if implOut[i].End != "ok" {
+				failing = append(failing, i)
+			}
+		}
+		parallelMap(len(failing), 0, func(fi int) {
+			i := failing[fi]
+			var out strings.Builder
+			fails := map[int]string{}
+			var split func(sites []*c02Site)
+			split = func(sites []*c02Site) {
+				r := runYaegiChild(c02Render("iso", sites).Src, 120*time.Second)
+				if r.End == "ok" {
+					out.WriteString(r.Stdout)
+					return
+				}
+				if len(sites) == 1 {
+					fails[sites[0].ID] = r.End
+					return
+				}
+				split(sites[:len(sites)/2])
+				split(sites[len(sites)/2:])
+			}
+			split(progs[i].Sites)
+			mu.Lock()
+			defer mu.Unlock()
+			if len(fails) > 0 {
+				implOut[i] = outcome{Stdout: out.String(), End: "ok"}
+				isolated[i] = true
+				for k, v := range fails {
+					siteFail[k] = v
+				}
+			}
+		})
+	}
 	yaegiDur := time.Since(tY)
 
 	// ---- reference: go build of a shard (quick) or of all programs (thorough)
 	var refProgs []goProg
 	refIdx := map[string]int{}
 	for i, p := range progs {
-		if *tier == "thorough" || i%8 == int(*seed%8) {
+		hasConst := false
+		for _, s := range p.Sites {
+			hasConst = hasConst || s.Cat == "kconst"
+		}
+		if *tier == "thorough" || i%8 == int(*seed%8) || hasConst {
 			refProgs = append(refProgs, goProg{Name: p.Name, Files: map[string]string{"main.go": p.Src}})
 			refIdx[p.Name] = i
 		}
@@ -1357,9 +1599,25 @@ func runC02(args []string) error {
 	// ---- comparison
 	distinct := distinctSet{}
 	caseID := 0
-	var intCases, strCases []string
+	var intCases, strCases, constCases []string
+	hazards, hazardSites := map[string]bool{}, 0
 	addCase := func(s *c02Site, i int, impl, ref string) int {
 		caseID++
+		if s.Cat == "kconst" {
+			if s.K.Class == "float" && s.Ctx != "kcmp" && s.Region == "" {
+				q := func(tok string) string {
+					r := c02TokRat(tok)
+					return coqOpt(r != nil, func() string {
+						if r == nil {
+							return ""
+						}
+						return c02CoqQ(r)
+					}())
+				}
+				constCases = append(constCases, fmt.Sprintf("(%d%%N, %s, %s, %s, %s)", caseID, coqBool(s.K.Bits == 32), c02CoqQ(s.KVal), q(impl), q(ref)))
+			}
+			return caseID
+		}
 		kind, text := c02CoqCase(caseID, s, i, impl, ref)
 		switch kind {
 		case "int":
@@ -1416,6 +1674,10 @@ func runC02(args []string) error {
 			sm.count(s.Cat + ":" + s.K.Class)
 			sm.count("ctx:" + s.Ctx)
 			sm.count("form:" + s.Form)
+			if s.Paren != "" {
+				sm.count("paren:" + s.Paren)
+				sm.count("cell:" + s.Cat + "/" + s.Ctx + "/" + s.Paren)
+			}
 			if s.Region != "" {
 				sm.count("region:" + s.Region)
 			}
@@ -1426,6 +1688,10 @@ func runC02(args []string) error {
 				if len(rt) != len(s.Expect) {
 					return fmt.Errorf("reference program %s, site %d: %d tokens, expected %d (generator defect)", p.Name, s.ID, len(rt), len(s.Expect))
 				}
+			}
+			if s.Cat == "kconst" && s.K.Class == "float" && s.K.Bits == 32 && c02DoubleRoundingDiffers(s.KVal) {
+				hazards[s.KName] = true
+				hazardSites++
 			}
 			for i, exp := range s.Expect {
 				exp = c02CanonTok(exp)
@@ -1451,17 +1717,22 @@ func runC02(args []string) error {
 				impl := "MISSING"
 				if i < len(it) {
 					impl = c02CanonTok(it[i])
+				} else if f, bad := siteFail[s.ID]; bad {
+					impl = "FAIL:" + f
 				}
 				if impl != exp {
+					region, predicted := c02KnownDefect(s, i, exp, impl)
+					// model Y in Coq covers the main stream and the regions it models; the other regions
+					// are predicted by the harness itself (exact agreement required below)
+					coqModelled := region == "" || region == "neg-shift" || region == "uintptr-incdec" || region == "iface-assign"
 					id := 0
-					if mismatchCases < 6000 {
+					if mismatchCases < 6000 && coqModelled {
 						id = addCase(s, i, impl, exp)
 						mismatchCases++
 					} else {
 						caseID++
 						id = caseID
 					}
-					region, predicted := c02KnownDefect(s, i, exp)
 					note := ""
 					if predicted != "" && predicted != impl {
 						note = "in region " + region + " but the known defect would print " + predicted
@@ -1477,6 +1748,11 @@ func runC02(args []string) error {
 					} else {
 						sm.count("ref_mismatches_not_listed")
 					}
+					continue
+				}
+				if s.Cat == "kconst" && s.Region == "" && (s.Ctx == "kvar" || s.Ctx == "kconst" || s.Ctx == "kconv") {
+					id := addCase(s, i, impl, exp)
+					sm.CaseIndex[fmt.Sprint(id)] = evalDesc(s, i)
 					continue
 				}
 				// sample of agreeing evaluations for the impl-vs-Y correspondence in Coq
@@ -1528,6 +1804,17 @@ func runC02(args []string) error {
 	if err := chunk("str", "str_case", "str_mis", strCases, 2000); err != nil {
 		return err
 	}
+	{
+		// constants rounded to float32 / float64: a separate model file (IEEE rounding over Q)
+		save := hdr
+		hdr = "From Coq Require Import ZArith QArith List.\nFrom Verif Require Import Num.ConstRound.\nImport ListNotations.\n"
+		if err := chunk("const", "const_case", "const_mis", constCases, 1500); err != nil {
+			return err
+		}
+		hdr = save
+	}
+	sm.Distribution["double_rounding_sensitive_constants"] = len(hazards)
+	sm.Distribution["double_rounding_sensitive_sites"] = hazardSites
 	if len(sm.CasesFiles) == 0 {
 		if err := chunk("int", "int_case", "int_mis", []string{}, 1); err != nil {
 			return err
@@ -1537,7 +1824,7 @@ func runC02(args []string) error {
 		sm.CasesFiles = append(sm.CasesFiles, name)
 		os.WriteFile(filepath.Join(*out, name), []byte(hdr+body), 0o644)
 	}
-	sm.ImplComparisons = len(intCases) + len(strCases)
+	sm.ImplComparisons = len(intCases) + len(strCases) + len(constCases)
 	sm.DistinctNontriv = len(distinct)
 	sm.Exhaustive = true
 	sm.Rule = "complete enumeration of operator x operand kind x operand form (two variables, literal / typed constant / untyped constant on either side) x result context " +
